@@ -57,7 +57,10 @@ class TranslateNode(Node, TranslatableTag):
     message_context_var = "context"
     # A placeholder is introduced by an unescaped percent sign. That is one preceded
     # by an even number (possibly zero) of percent signs, as in `100%%%(you)s`.
-    re_vars = re.compile(r"(?<!%)(?:%%)*%\((\w+)\)s")
+    # printf-style formatting takes everything up to the closing parenthesis as the
+    # variable name, so a name need not be a `\w+` word: `{{ some-thing }}` is
+    # `%(some-thing)s`.
+    re_vars = re.compile(r"(?<!%)(?:%%)*%\(([^()%]+)\)s")
 
     def __init__(
         self,
